@@ -159,11 +159,25 @@ def run_case(case):
             # end this session one way or another
             live = ss.live_connectors(sim)
             if live:
-                if spec.get('end', 'close') == 'notif':
+                end = spec.get('end', 'close')
+                if end == 'notif':
                     r.peer_send(live[-1], rc.notification(6, 4))
+                elif end == 'notif-ver':
+                    r.peer_send(live[-1], rc.notification(2, 1))
+                elif end == 'bad-marker':
+                    r.peer_send(live[-1], b'\x00' * 19)
+                elif end == 'update-early':
+                    r.peer_send(live[-1], ss.marked_update(1)[0])
+                    r.peer_send(live[-1], rc.frame(rc.OPEN, b'\x04'))
+                elif end == 'stop-start':
+                    sim.manual_stop()
                     r.settle(fire_due=True)
+                    sim.manual_start()
+                elif end == 'hold-expiry':
+                    r.advance(min(cfg['hold'], spec['hold']) + 241)
+                r.settle(fire_due=True)
                 live = ss.live_connectors(sim)
-                if live:
+                if live and end != 'stop-start':
                     r.peer_close(live[-1])
                     r.settle(fire_due=True)
     # ---------------------------------------------------------------- the agent's OPENs
@@ -288,7 +302,8 @@ peer_spec = st.fixed_dictionaries({
     'hold': st.one_of(st.sampled_from([0, 1, 2, 3, 4, 30, 90, 180, 65535]), st.integers(3, 65535)),
     'as4': st.booleans(),
     'caps': st.lists(st.sampled_from(['mp4', 'mp6', 'rr', 'rr128', 'err', 'addpath', 'gr']), unique=True, max_size=6),
-    'end': st.sampled_from(['close', 'notif']), 'complete': st.booleans()})
+    'end': st.sampled_from(['close', 'notif', 'notif-ver', 'bad-marker', 'update-early', 'stop-start', 'hold-expiry']),
+    'complete': st.booleans()})
 
 
 @st.composite
